@@ -75,7 +75,7 @@ pub fn parse_cfg(script: &str) -> Cfg {
                     }
                     "runtime" => c.runtime_ct = v == "ct",
                     "init" => c.lazy = v == "lazy",
-                    "nomodel" => {}
+                    "nomodel" | "bloombits" => {}
                     "usedir" => c.usedir = Some(v.to_string()),
                     "savedir" => c.savedir = Some(v.to_string()),
                     _ => panic!("unknown cfg key {}", k),
